@@ -36,4 +36,16 @@ for name in names:
     finally:
         subprocess.run(["git", "-C", "/repo", "worktree", "remove", "--force", wt])
         # the run regenerated lean/D2V/Gen from the mutated tree: regenerate from /repo
-subprocess.run(["sh", "-c", "for d in translator/*/; do n=$(basename $d); [ $n = tl ] && continue; (cd translator && go build -o ../.bin/tr-$n ./$n && ../.bin/tr-$n -repo /repo -out ../lean/D2V/Gen >/dev/null); done"], cwd=ROOT, env=dict(os.environ, GOFLAGS="-mod=mod", GOPROXY="off"))
+# the runs regenerated lean/D2V/Gen from mutated trees: regenerate the generators of the properties that ran from /repo
+gens = set()
+for name in names:
+    mp = os.path.join(SEEDED, name, "meta.json")
+    if os.path.exists(mp):
+        m = json.load(open(mp))
+        for p in m.get("checks", [m["property"]]):
+            e = os.path.join(ROOT, "props", p, "entry.json")
+            if os.path.exists(e):
+                gens |= set(json.load(open(e)).get("gen", []))
+env = dict(os.environ, GOFLAGS="-mod=mod", GOPROXY="off")
+for g in sorted(gens):
+    subprocess.run(["sh", "-c", "cd translator && go build -o ../.bin/tr-%s ./%s && ../.bin/tr-%s -repo /repo -out ../lean/D2V/Gen >/dev/null" % (g, g, g)], cwd=ROOT, env=env)
